@@ -103,6 +103,8 @@ class G:
         va = 255
         target = rng.choice(p["targets"])
         if p["va"] and rng.random() < p["va"] and nargs >= 1:
+            if rng.random() < p.get("va_imm", 0.75):
+                target = "imm"
             # C default argument promotions: no char / short / float among the variadic arguments
             va = rng.randrange(1, nargs + 1) if nargs > 1 else 1
             for j in range(va, nargs):
@@ -225,6 +227,8 @@ class G:
         nf = rng.choice(p["fargs"])
         fargs = [self.pick_type() for _ in range(nf)]
         fret = "void" if rng.random() < 0.15 else self.pick_type(allow_vec=rng.random() < 0.3)
+        if SIZE[fret] == 32:
+            cfg["cleanup"] = 0       # vzeroupper before ret (requested by the user) would clear the upper half of a ymm result
         steps, defined = [], set()
         order = list(range(1, nf + 1))
         rng.shuffle(order)
